@@ -51,6 +51,7 @@
 -/
 import RotoV.Lemmas.Conc
 import RotoV.Lemmas.ConcShare
+import RotoV.Lemmas.ConcExec
 import RotoV.Generated.C12Bounds
 import RotoV.Generated.C12Sharing
 
@@ -721,5 +722,351 @@ example :
 example : countRun (1, 0) [.clone, .clone, .drop, .drop, .drop] = some (0, 1) := by decide
 
 end T4Example
+
+/-! ## T5 — the composition: accepted items run by any number of threads
+
+T2's checker discharges the frame hypothesis of T1 for the steps of generated
+code. The machine is `Exec.mstep` (Model/ConcExec): one global store; every
+call has private state (frames, registers, program counters), call-local memory
+(stack slots fresh per activation, the host's return buffer and by-reference
+arguments) and shares constants, context and everything else with all other
+calls. Calls between items push and pop frames; Rust code called from generated
+code is a parameter constrained by `RtConfined`. -/
+
+section T5
+open Lir Exec
+variable {ι : Type} [DecidableEq ι]
+
+/-- **Every step of an accepted program is a `LocalStep` of T1** (guarded by the
+checker's invariant), and on every store in which the stepping call satisfies
+that invariant the guarded step is the machine step itself. The invariant holds
+initially (`initState_good`) and is kept by every step of every call
+(`mstep_good`), so along every schedule the guard never fires. -/
+theorem accepted_steps_local (prog : List Item) (hacc : acceptProg prog = true)
+    (sem : Sem) (hrt : RtConfined sem) (i : ι) :
+    LocalStep Exec.owner i (gstep prog sem i)
+    ∧ (∀ m : Store ι, GoodAt prog i m → gstep prog sem i m = mstep prog sem i m)
+    ∧ (∀ m : Store ι, (∀ j, GoodAt prog j m) → ∀ j, GoodAt prog j (mstep prog sem i m)) :=
+  ⟨gstep_local hacc hrt i, fun _ h => gstep_good h, fun m h => mstep_good hacc hrt i m h⟩
+
+/-- **T5 (T2 ∘ T1).** `prog` is any set of items accepted by the verified checker
+(`acceptProg` = `Lir.accept` on every item + the call-site check), `sem` any
+behaviour of arithmetic, control flow and Rust callees with `RtConfined`. Any
+number of calls `ι`, each in a state satisfying the checker's invariant (e.g.
+`initState`: just started by the host, `accepted_calls_noninterfere`), take
+steps in ANY order `sched` (any number of threads, any schedule, including calls
+that never finish). Then every address owned by call `i` — its registers, its
+result, its host-value counter, its stack slots, its return buffer — ends with
+exactly the content it has when call `i` takes the same number of steps ALONE
+from the initial store, and every shared address (constants, context) is
+unchanged. The proof instantiates T1 `noninterference` with the guarded steps. -/
+theorem accepted_items_noninterfere (prog : List Item) (hacc : acceptProg prog = true)
+    (sem : Sem) (hrt : RtConfined sem) (m0 : Store ι) (h0 : ∀ i, GoodAt prog i m0)
+    (sched : List ι) :
+    (∀ i a, Exec.owner a = some i →
+      run (schedOf (mstep prog sem) sched) m0 a
+        = runSolo (List.replicate (sched.count i) (mstep prog sem i)) m0 a)
+    ∧ (∀ a, Exec.owner a = none → run (schedOf (mstep prog sem) sched) m0 a = m0 a) := by
+  have hloc : ∀ p ∈ schedOf (gstep prog sem) sched, LocalStep Exec.owner p.1 p.2 := by
+    intro p hp
+    simp only [schedOf, List.mem_map] at hp
+    obtain ⟨i, _, rfl⟩ := hp
+    exact gstep_local hacc hrt i
+  have h := noninterference Exec.owner (schedOf (gstep prog sem) sched) hloc m0
+  rw [run_guard_eq hacc hrt sched m0 h0]
+  refine ⟨fun i a ha => ?_, h.2⟩
+  rw [h.1 i a ha, proj_schedOf, runSolo_guard_eq hacc hrt i _ m0 h0]
+
+/-- what the host observes of call `i` in a store -/
+def resultOf (m : Store ι) (i : ι) : Option Val :=
+  match m (.priv i) with
+  | .priv s => s.result
+  | .val _ => none
+
+def acctOf (m : Store ι) (i : ι) : Int :=
+  match m (.priv i) with
+  | .priv s => s.acct
+  | .val _ => 0
+
+def finished (m : Store ι) (i : ι) : Bool :=
+  match m (.priv i) with
+  | .priv s => s.stack.isEmpty
+  | .val _ => false
+
+/-- **T5 for calls started by the host.** Call `i` runs item `(calls i).1` with
+scalar arguments `(calls i).2`, by-reference arguments and the return buffer in
+host memory of that call, on an arbitrary initial memory `m0`. Under every
+schedule: the returned value, the return buffer, whether the call has finished
+and the call's host-value counter equal those of the solo run; constants and
+the context are never modified. -/
+theorem accepted_calls_noninterfere (prog : List Item) (hacc : acceptProg prog = true)
+    (sem : Sem) (hrt : RtConfined sem) (calls : ι → Nat × (Var → Int)) (m0 : Store ι)
+    (hinit : ∀ i, m0 (.priv i) = .priv (initState prog (calls i).1 (calls i).2))
+    (sched : List ι) (i : ι) :
+    let conc := run (schedOf (mstep prog sem) sched) m0
+    let solo := runSolo (List.replicate (sched.count i) (mstep prog sem i)) m0
+    resultOf conc i = resultOf solo i
+    ∧ finished conc i = finished solo i
+    ∧ acctOf conc i = acctOf solo i
+    ∧ (∀ r off, r.isLocal = true → conc (.loc i r off) = solo (.loc i r off))
+    ∧ (∀ r off, conc (.shared r off) = m0 (.shared r off)) := by
+  have h0 : ∀ j, GoodAt prog j m0 := fun j => ⟨_, hinit j, initState_good hacc _ _⟩
+  have h := accepted_items_noninterfere prog hacc sem hrt m0 h0 sched
+  have hp := h.1 i (.priv i) rfl
+  refine ⟨?_, ?_, ?_, fun r off _ => h.1 i (.loc i r off) rfl, fun r off => h.2 (.shared r off) rfl⟩
+  · simp only [resultOf, hp]
+  · simp only [finished, hp]
+  · simp only [acctOf, hp]
+
+/-- **T5, accounting.** If every call balances its host values when run alone
+(C03), the calls balance under every schedule (each call's counter is private
+state; the global counter of T1 `accounting_balances` is their sum). -/
+theorem accepted_calls_accounting (prog : List Item) (hacc : acceptProg prog = true)
+    (sem : Sem) (hrt : RtConfined sem) (m0 : Store ι) (h0 : ∀ i, GoodAt prog i m0)
+    (sched : List ι) (cs : List ι)
+    (hsolo : ∀ i ∈ cs, acctOf (runSolo (List.replicate (sched.count i) (mstep prog sem i)) m0) i = 0) :
+    (cs.map (acctOf (run (schedOf (mstep prog sem) sched) m0))).sum = 0 := by
+  have h := accepted_items_noninterfere prog hacc sem hrt m0 h0 sched
+  have : ∀ i ∈ cs, acctOf (run (schedOf (mstep prog sem) sched) m0) i = 0 := by
+    intro i hi
+    have hp := h.1 i (.priv i) rfl
+    have := hsolo i hi
+    simp only [acctOf] at this ⊢
+    rw [hp]; exact this
+  induction cs with
+  | nil => rfl
+  | cons c cs ih =>
+    simp only [List.map_cons, List.sum_cons]
+    rw [this c (List.mem_cons_self ..), ih (fun i hi => hsolo i (List.mem_cons_of_mem _ hi))
+      (fun i hi => this i (List.mem_cons_of_mem _ hi))]
+    rfl
+
+/-! ### the assumption about Rust callees, tied to T3 -/
+
+/-- The Rust object behind a call site of generated code (a registered
+function / closure, the clone / drop / eq glue of a registered value type, a
+registered constant): the auto traits of its type and the bound list it was
+admitted through (one of the lists the translator regenerates). -/
+structure RtSite where
+  auto : Bounds.Auto
+  bounds : List Bounds.Bound
+
+/-- every Rust object generated code reaches was admitted through one of the
+generated bound lists (registration compiled) -/
+def SitesAdmitted (f : Bounds.Facts) (site : Nat → Nat → RtSite) : Prop :=
+  ∀ fn pc, (site fn pc).bounds ∈ Bounds.reachable f
+    ∧ Bounds.admits (site fn pc).bounds (site fn pc).auto = true
+
+/-- TRUSTED (the meaning of `Send + Sync` in Rust, plus the modelling
+assumption of `RtConfined`): Rust code whose state is `Send + Sync`, called
+through a shared reference from generated code, touches non-synchronised memory
+only through the pointers it is handed for writing. Nothing is assumed about a
+site whose type is not `Send + Sync`. -/
+def SyncConfines (sem : Sem) (site : Nat → Nat → RtSite) : Prop :=
+  ∀ fn pc, (site fn pc).auto.send = true ∧ (site fn pc).auto.sync = true →
+    ∀ handed ro view, ∀ w ∈ (sem.rt fn pc handed ro view).writes, w.1 ∈ handed.flatMap atarget
+
+/-- `RtConfined` follows from T3's decision over the generated bound lists: if
+the bounds were weaker (the tree before the `+ Sync` fix), a `Send`-only closure
+would be admitted and nothing could be concluded about its site. -/
+theorem rtConfined_of_sync (f : Bounds.Facts) (hsound : SharingSound f) (sem : Sem)
+    (site : Nat → Nat → RtSite) (hadm : SitesAdmitted f site) (hsync : SyncConfines sem site) :
+    RtConfined sem := by
+  intro fn pc handed ro view w hw
+  obtain ⟨hb, ha⟩ := hadm fn pc
+  exact hsync fn pc (hsound.2 _ hb _ ha) handed ro view w hw
+
+/-- the statement of `exclusive_swaps_permute`, as a property of sharing facts -/
+def SwapsSerialise (f : Share.Facts) : Prop :=
+  ∀ (site : Nat → Share.LockSite), (∀ i, site i ∈ f.lockSites) →
+    (∀ i, Share.siteNeedsExcl f (site i) = true) →
+    ∀ (a b : Nat → Nat) (tr : List Share.Micro) (arr : List Nat),
+      Share.runLock (Share.lockKind f.listCell) (fun j => (site j).mode) [] (tr.map Share.Micro.toEv) = some [] →
+      (∀ i, Share.projMicro i tr = [] ∨ Share.projMicro i tr = Share.swapProg i (a i) (b i)) →
+      (∀ i, a i < arr.length ∧ b i < arr.length) →
+      Share.execMicro (arr, []) tr = (Share.acqOrder tr).foldl (fun arr i => Share.swapList arr (a i) (b i)) arr
+      ∧ (Share.execMicro (arr, []) tr).Perm arr
+
+/-- **C12 as one theorem.** Hypotheses, each either decided from generated
+facts, run by the driver on real compiler output, or named as trusted:
+
+* `hacc`    the verified checker accepts every item of the program (driver, on
+            the real LIR dump of every generated script);
+* `hbounds` T3's decision over the bound lists generated from the sources;
+* `hshare`  T4's decision over the sharing facts generated from the sources;
+* `hadm`, `hsync`  TRUSTED: every Rust object generated code reaches was
+            admitted through one of those bound lists, and `Send + Sync` Rust
+            code stays within the pointers it is handed;
+* TRUSTED, built into `Exec.resolve`: stack slots and host buffers of a call
+  are memory of that call (Cranelift stack slots are thread-private).
+
+Conclusion: (1) under every schedule of any number of calls each call's result,
+return buffer, termination and host-value counter equal its solo run, and
+constants and context are never written; (2) every mutation of a shared list is
+exclusive, so concurrent swaps serialise in lock order and leave a permutation;
+no `Rc` and no unlocked cell is reachable from an `unsafe impl Send/Sync` type
+(so every shared count is the exact, free-once machine of
+`arc_frees_exactly_once`); every closure derived from a handle owns the module
+(`owning_closure_never_dangles`). -/
+theorem c12_concurrent_use
+    (fB : Bounds.Facts) (fS : Share.Facts)
+    (hclaim : Bounds.claimed fB = true) (hbounds : Bounds.syncJustified fB = true)
+    (hshare : Share.shareJustified fS = true)
+    (prog : List Item) (hacc : acceptProg prog = true)
+    (sem : Sem) (site : Nat → Nat → RtSite) (hadm : SitesAdmitted fB site) (hsync : SyncConfines sem site)
+    (calls : ι → Nat × (Var → Int)) (m0 : Store ι)
+    (hinit : ∀ i, m0 (.priv i) = .priv (initState prog (calls i).1 (calls i).2))
+    (sched : List ι) :
+    (∀ i,
+      let conc := run (schedOf (mstep prog sem) sched) m0
+      let solo := runSolo (List.replicate (sched.count i) (mstep prog sem i)) m0
+      resultOf conc i = resultOf solo i ∧ finished conc i = finished solo i
+      ∧ acctOf conc i = acctOf solo i
+      ∧ (∀ r off, r.isLocal = true → conc (.loc i r off) = solo (.loc i r off))
+      ∧ (∀ r off, conc (.shared r off) = m0 (.shared r off)))
+    ∧ ShareSound fS ∧ SwapsSerialise fS
+    ∧ (∀ tr owners, Share.ownRun true owners tr = true) := by
+  have hrt : RtConfined sem :=
+    rtConfined_of_sync fB ((sync_sound fB).mp hbounds hclaim) sem site hadm hsync
+  have hss := (share_sound fS).mp hshare
+  have hd : Share.lockDiscipline fS = true := by
+    unfold Share.shareJustified at hshare
+    simp only [Bool.and_eq_true] at hshare
+    exact hshare.1.1
+  refine ⟨fun i => accepted_calls_noninterfere prog hacc sem hrt calls m0 hinit sched i, hss, ?_,
+    fun tr owners => owning_closure_never_dangles tr owners⟩
+  intro site' hsite hmut a b tr arr hrun hprog hb
+  exact exclusive_swaps_permute fS hd site' hsite hmut a b tr arr hrun hprog hb
+
+/-- **C12 on the current tree**: the generated obligations discharged
+(`sync_holds_on_tree`, `lock_discipline_on_tree`, `counts_atomic_on_tree`,
+`closures_own_on_tree`). What remains are the checker's verdict on the program
+at hand (decided by the driver for every generated script) and the trusted
+hypotheses. -/
+theorem c12_on_tree
+    (prog : List Item) (hacc : acceptProg prog = true)
+    (sem : Sem) (site : Nat → Nat → RtSite)
+    (hadm : SitesAdmitted Gen.C12Bounds.facts site) (hsync : SyncConfines sem site)
+    (calls : ι → Nat × (Var → Int)) (m0 : Store ι)
+    (hinit : ∀ i, m0 (.priv i) = .priv (initState prog (calls i).1 (calls i).2))
+    (sched : List ι) :
+    (∀ i,
+      let conc := run (schedOf (mstep prog sem) sched) m0
+      let solo := runSolo (List.replicate (sched.count i) (mstep prog sem i)) m0
+      resultOf conc i = resultOf solo i ∧ finished conc i = finished solo i
+      ∧ acctOf conc i = acctOf solo i
+      ∧ (∀ r off, r.isLocal = true → conc (.loc i r off) = solo (.loc i r off))
+      ∧ (∀ r off, conc (.shared r off) = m0 (.shared r off)))
+    ∧ ShareSound Gen.C12Sharing.facts ∧ SwapsSerialise Gen.C12Sharing.facts
+    ∧ (∀ tr owners, Share.ownRun true owners tr = true) :=
+  c12_concurrent_use Gen.C12Bounds.facts Gen.C12Sharing.facts sync_holds_on_tree.1 sync_holds_on_tree.2
+    (by unfold Share.shareJustified
+        rw [lock_discipline_on_tree, counts_atomic_on_tree, closures_own_on_tree]; rfl)
+    prog hacc sem site hadm hsync calls m0 hinit sched
+
+end T5
+
+namespace T5Example
+open Lir Exec
+
+/-- `main(n)`: reads a constant, calls `helper(c, n)` with its stack slot 10 as
+return pointer, lets a runtime function append to that slot, copies two cells
+to the host's return buffer. -/
+def main : Item where
+  slots := [10]
+  ret := some 1
+  ctx := some 0
+  params := [(2, false)]
+  instrs := [
+    .constAddr 5 7,
+    .read 6 false (.var 5),
+    .call 1 none false none (some 10) [.var 6, .var 2],
+    .callRt [.var 10, .var 6],
+    .copy (.var 1) (.var 10) 2,
+    .ret none]
+
+/-- `helper(a, b)`: writes `a + b` through its return pointer -/
+def helper : Item where
+  slots := []
+  ret := some 20
+  ctx := none
+  params := [(21, false), (22, false)]
+  instrs := [.arith 23 false, .write (.var 20) (.var 23), .ret none]
+
+def prog : List Item := [main, helper]
+
+/-- `helper` with the constant's address as its place (the clone skipped): one
+more item, not accepted -/
+def badMain : Item := { main with instrs := [.constAddr 5 7, .write (.var 5) (.var 2), .ret none] }
+
+def sem : Sem where
+  alu := fun _ _ env =>
+    match env 21, env 22 with
+    | .scalar a, .scalar b => .scalar (a + b)
+    | _, _ => .undef
+  next := fun _ pc _ => pc + 1
+  rt := fun _ _ handed ro _ =>
+    match handed, ro with
+    | .ptr r off :: x :: _, _ => { res := .undef, writes := [(r, off + 1, x)], delta := 1 }
+    | _, _ => { res := .undef, writes := [], delta := 0 }
+
+theorem sem_confined : RtConfined sem := by
+  intro fn pc handed ro view w hw
+  unfold sem at hw
+  simp only at hw
+  split at hw
+  · simp only [List.mem_singleton] at hw
+    subst hw
+    simp [atarget]
+  · cases hw
+
+/-- two calls, `main(1)` and `main(2)`, the constant holds 5 -/
+def m0 : Store Nat := fun a =>
+  match a with
+  | .priv i => .priv (initState prog 0 (fun _ => (i : Int) + 1))
+  | .shared (.const 7) 0 => .val (.scalar 5)
+  | _ => .val .undef
+
+def sched : List Nat := [0, 1, 1, 0, 0, 0, 1, 0, 1, 1, 0, 1, 0, 0, 1, 1, 0, 1]
+
+/-- non-vacuity of T5: a program with a call between items, a runtime call and
+a copy to the return buffer is accepted; its hypotheses hold for a really
+interleaved schedule; and the conclusion is the expected result for both calls
+(6 = 5 + 1 and 7 = 5 + 2 in the return buffer, the constant appended by the
+runtime function, one host value each, both finished, constant unchanged). -/
+example :
+    acceptProg prog = true ∧ RtConfined sem
+    ∧ (∀ i, m0 (.priv i) = .priv (initState prog 0 (fun _ => (i : Int) + 1)))
+    ∧ (let conc := run (schedOf (mstep prog sem) sched) m0
+       cellVal (conc (.loc 0 .ret 0)) = .scalar 6 ∧ cellVal (conc (.loc 1 .ret 0)) = .scalar 7
+       ∧ cellVal (conc (.loc 0 .ret 1)) = .scalar 5
+       ∧ finished conc 0 = true ∧ finished conc 1 = true ∧ acctOf conc 0 = 1
+       ∧ cellVal (conc (.shared (.const 7) 0)) = .scalar 5) := by
+  refine ⟨by decide, sem_confined, fun _ => rfl, ?_⟩
+  decide
+
+/-- the checker is not vacuous on programs either: an item that writes through
+a constant's address is rejected, a call site that passes a scalar to a
+pointer-typed parameter is rejected, and the rejected item really has a run in
+which call 0 changes what call 1 reads from the constant. -/
+example :
+    acceptProg [badMain] = false
+    ∧ acceptProg [{ main with instrs := [.call 1 none false none none [.var 2]] },
+                  { helper with params := [(21, true)] }] = false
+    ∧ cellVal (run (schedOf (mstep [badMain] sem) [0, 0]) m0 (.shared (.const 7) 0)) = .scalar 1 := by
+  refine ⟨by decide, by decide, by decide⟩
+
+def exSite : Nat → Nat → RtSite := fun _ _ =>
+  { auto := ⟨true, true⟩,
+    bounds := (Gen.C12Bounds.facts.registerableFnImpls.headD []) ++ Gen.C12Bounds.facts.registerableFnSuper }
+
+/-- non-vacuity of `rtConfined_of_sync` / `c12_on_tree`: the sites of the example
+are closures admitted through the generated bound list of the first
+`RegisterableFn` impl, `Send + Sync` as those bounds demand. -/
+example : SitesAdmitted Gen.C12Bounds.facts exSite ∧ SyncConfines sem exSite :=
+  ⟨fun _ _ => ⟨by simp only [exSite]; decide, by simp only [exSite]; decide⟩,
+   fun fn pc _ => sem_confined fn pc⟩
+
+end T5Example
 
 end RotoV.C12
